@@ -57,10 +57,11 @@ def impl(case):
         traj.extend(synth.make_traj(case['m'], ['Li'] * c.shape[1], c[k:], time_step=case['dt'], rot=rot))
     else:
         traj = synth.make_traj(case['m'], ['Li'] * c.shape[1], c, time_step=case['dt'], rot=rot)
+    guard = synth.InputGuard(trajectory=traj)
     msd = traj.mean_squared_displacement()
     dist = traj.distances_from_base_position()
     td = traj.metrics().tracer_diffusivity(dimensions=case['dim'])
-    return {'msd': msd.tolist(), 'dist_last': dist[:, -1].tolist(), 'tracer': float(td)}
+    return {'msd': msd.tolist(), 'dist_last': dist[:, -1].tolist(), 'tracer': float(td), 'inputs_changed': guard.changed()}
 
 
 def _unwrapped(case):
@@ -96,7 +97,7 @@ def _exact(case):
 def oracle(case, out):
     if 'msd' not in out:
         return [('c06/harness-error', f"{out.get('error')}: {out.get('msg')} {out.get('tb', '')[-400:]}")]
-    fs = []
+    fs = synth.inputs_clause(out, 'mean_squared_displacement / distances_from_base_position / tracer_diffusivity')
     ex = _exact(case)
     for a, (row, got) in enumerate(zip(ex, out['msd'])):
         scale = max(1.0, max(float(v) for v in row))
